@@ -79,7 +79,7 @@ namespace adm {
      * AudioPackFormat can only be created as a `std::shared_ptr`. This is not a
      * deep copy! All referenced objects will be disconnected.
      */
-    ADM_EXPORT std::shared_ptr<AudioPackFormat> copy() const;
+    ADM_EXPORT virtual std::shared_ptr<AudioPackFormat> copy() const;
 
     /**
      * @brief ADM parameter getter template
